@@ -18,7 +18,7 @@ def run_mc(prop, mc, tier, wd, seed):
         extra += ['-seed', str(seed)]
     rc, out = vlib.run_tlc(os.path.join(SPEC, 'mc'), module, cfg, workers=mc.get('workers', 8), heap=mc.get('heap', '6g'),
                            timeout=mc.get('timeout', 3600), simulate=simulate, depth=mc.get('depth'), extra=extra,
-                           env=mc.get('env'))
+                           env=mc.get('env'), jit='c1' if tier == 'quick' else mc.get('jit', 'full'))
     wall = time.time() - t0
     generated, distinct = vlib.parse_stats(out)
     ok = 'No error has been found' in out or (simulate and 'states checked' in out and 'Error' not in out)
